@@ -26,12 +26,14 @@ DTM = "2023-11-30T13:15:00.123456"
 
 
 # =========================================================================== C16
-@harness("C16", cases=[(shape, n) for shape in (1, 2, 3) for n in (1, 3, 24)], quick=lambda shape, n: n == 3, budget_s=400,
+@harness("C16", cases=[(shape, n, 123456) for shape in (1, 2, 3) for n in (1, 3, 24)] + [(shape, 1, us) for shape in (1, 2, 3) for us in (0, 500000)],
+         quick=lambda shape, n, us: n == 3 or (shape == 1 and us == 0), budget_s=400,
          subst={_packet.pkt_lifespan: pkt_lifespan_callsite})
-def stored_packet_restores(shape, n):
+def stored_packet_restores(shape, n, us):
     """The storage form of a packet -- repr(pkt)[:26] (timestamp) and repr(pkt)[27:] (frame, with its
     header comment) -- restores through Packet.from_dict to an equal packet with the same
-    timestamp (so a snapshot can be fed back)."""
+    timestamp (so a snapshot can be fed back); also for a timestamp on a whole second (us == 0)."""
+    DTM = dt(2023, 11, 30, 13, 15, 0, us).isoformat(timespec="microseconds")
     verb = sym_choice("verb", list(VERBS))
     _, seqn = sym_seqn()
     a0, a1, a2 = sym_addr_set(shape)
